@@ -470,7 +470,7 @@ def unit_hyp(rec: Rec, n: int, offset: int) -> None:
 
 
 def units(tier: str, seed: int) -> list[Unit]:
-    n = 250 if tier == "quick" else 4000
+    n = 600 if tier == "quick" else 4000
     return [Unit(f"rt{i}", unit_hyp, {"n": n, "offset": i}) for i in range(16)]
 
 
